@@ -68,6 +68,27 @@ def field_world(rng, S, ET):
     return r.xml
 
 
+def escaping_world(rng, S):
+    """attribute values and documentation text that need XML escaping (both quote kinds, &, <, >, non-ASCII)"""
+    pieces = ['"', "'", '&', '<', '>', 'a', 'it', '&amp;', '\u00e9', '\u2028', ']]>', '=', '\\']
+    syms, comments = [], []
+    for i in range(rng.randint(1, 4)):
+        name = 'foo_esc_%d' % i
+        val = ''.join(rng.choice(pieces) for _ in range(rng.randint(1, 5)))
+        doc = ' '.join(''.join(rng.choice(pieces) for _ in range(rng.randint(1, 4))) for _ in range(rng.randint(1, 5)))
+        syms.append(S.FS(S.CSYMBOL_TYPE_FUNCTION, name, base_type=S.FT(S.CTYPE_FUNCTION, base_type=S.VOID,
+                                                                         child_list=[S.param('x', S.td('gint'))]), line=10 + i))
+        comments.append(('/**\n * %s: (attributes demo.k=%s other.k=v)\n * @x: (attributes p.k=%s): %s\n *\n * %s\n */' % (name, val, val, doc, doc),
+                         '/src/foo.c', 1000 + 20 * i))
+    try:
+        r = S.run(syms, comments=comments, includes=['GLib', 'GObject'], warnings=False)
+    except Exception as e:      # noqa
+        if type(e).__name__ == 'ParseError':
+            return ('not-well-formed', repr(e), [c[0] for c in comments])
+        raise
+    return r.xml
+
+
 def main(tier, seed):
     ck = Check('C07', tier, seed)
     ck.assumptions += ['the cycle is the project\'s own (GIRParser().parse + GIRWriter, as scannermain.passthrough_gir / --reparse-validate do it)',
@@ -87,6 +108,13 @@ def main(tier, seed):
                 docs.append((what, xml))
             for b in range(10 if tier == 'quick' else 150):
                 docs.append(('structure members #%d' % b, field_world(rng, S, ET)))
+            for b in range(10 if tier == 'quick' else 150):
+                w = escaping_world(rng, S)
+                if isinstance(w, tuple):
+                    ck.failing_input('the GIR written by the scanner is not well-formed XML, so it cannot be read back',
+                                     dict(comments=w[2], functions='void foo_esc_<i> (gint x)'), detail=w[1])
+                else:
+                    docs.append(('escaping #%d' % b, w))
         except (Exception, SystemExit) as e:      # noqa
             ck.tie_broken('correspondence', 'the scanner fails on a generated world: %r' % (e,))
         for f in sorted(glob.glob(os.path.join(REPO, 'tests', 'scanner', '*-expected.gir'))):
@@ -112,8 +140,9 @@ def main(tier, seed):
     finally:
         shutil.rmtree(tmp, ignore_errors=True)
     return ck.finish(rule='GIR documents written by the real scanner for the generators of annotated callables, runtime-dump worlds, '
-                          'structure/virtual-method worlds, declaration worlds and a structure-member generator (anonymous unions and '
-                          'structures, function-pointer members, arrays whose length is another member), plus the %d shipped '
+                          'structure/virtual-method worlds, declaration worlds, a structure-member generator (anonymous unions and '
+                          'structures, function-pointer members, arrays whose length is another member) and an escaping generator '
+                          '(attribute values and documentation with both quote kinds, &, <, >, ]]>, non-ASCII), plus the %d shipped '
                           'tests/scanner/*-expected.gir files; each is read by GIRParser and written by GIRWriter three times in a row and '
                           'must stay byte-identical' % len(glob.glob(os.path.join(REPO, 'tests', 'scanner', '*-expected.gir'))))
 
